@@ -153,8 +153,15 @@ struct CD {
   uint64_t a;
   uint64_t b;
   const TD* bt;
+  const char* prior = nullptr;  // which value the object held before the write (assignment/store forms)
 };
+static string cd_str_base(const WD& wd, const CD& c);
 static string cd_str(const WD& wd, const CD& c) {
+  string r = cd_str_base(wd, c);
+  if (c.prior) r += fmt(" [object held the %s value before]", c.prior);
+  return r;
+}
+static string cd_str_base(const WD& wd, const CD& c) {
   string a = vstr(*wd.t, c.a);
   switch (c.form) {
     case F_CTOR: return fmt("%s w(%s)", wd.nm, a.c_str());
@@ -470,30 +477,49 @@ struct ValueSuite {
       }
     }
     if constexpr (!LEAN) {
+      // The value held BEFORE the write must not matter. Prior values: the complement, the same value, the value with only
+      // the top bit flipped (for floats: -x, so -0.0 over +0.0 - equal under ==, different bits), the adjacent pattern, zero,
+      // all ones and the byte-reversed pattern. (A store that skips "unchanged" values by == loses the sign of zero.)
+      const uint64_t top = 1ULL << (8 * sizeof(T) - 1);
+      uint64_t rev = 0;
+      for (size_t i = 0; i < sizeof(T); i++) rev |= ((pattern >> (8 * i)) & 0xFF) << (8 * (sizeof(T) - 1 - i));
+      const uint64_t prior_bits[] = {~pattern, pattern, pattern ^ top, pattern ^ 1, 0, ~0ULL, rev};
+      static const char* const prior_nm[] = {"complement", "same", "top-bit-flipped", "adjacent", "zero", "all-ones", "byte-reversed"};
+      for (size_t pi = 0; pi < sizeof(prior_bits) / sizeof(prior_bits[0]); pi++) {
+        const T prior = from_bits<T>(prior_bits[pi]);
+        const char* pn = prior_nm[pi];
       {  // assignment from a native value (as users write it), and the value of the assignment expression
-        W w(other);
+        W w(prior);
         T r = (w = a);
         EV++;
-        CD c = {"=", F_ASSIGN, ab, 0, nullptr};
+        CD c = {"=", F_ASSIGN, ab, 0, nullptr, pn};
         if (__builtin_expect(bits_of(r) != ab, 0)) report_ret(wd, bits_of(r), ab, c);
         check_state<LEAN, W>(w, a, false, c, big);
       }
       {  // converted_endian::operator=(ExposedT) itself
-        W w(other);
+        W w(prior);
         T r = (base_of(w) = a);
         EV++;
-        CD c = {"=", F_BASEASSIGN, ab, 0, nullptr};
+        CD c = {"=", F_BASEASSIGN, ab, 0, nullptr, pn};
         if (__builtin_expect(bits_of(r) != ab, 0)) report_ret(wd, bits_of(r), ab, c);
         check_state<LEAN, W>(w, a, false, c, big);
       }
       {  // store
         Slot<W> s;
-        W* w = new (s.at()) W(other);
+        W* w = new (s.at()) W(prior);
         w->store(a);
         EV++;
-        CD c = {"store", F_STORE, ab, 0, nullptr};
+        CD c = {"store", F_STORE, ab, 0, nullptr, pn};
         check_state<LEAN, W>(*w, a, false, c, big);
         if (__builtin_expect(!s.canary_ok(), 0)) report_canary(wd, c);
+      }
+      {  // copy assignment onto an object holding the prior value
+        W src(a);
+        W dst(prior);
+        dst = src;
+        EV++;
+        check_state<LEAN, W>(dst, a, false, CD{"copy", F_COPYASSIGN, ab, 0, nullptr, pn}, big);
+      }
       }
     }
     {  // store_raw / load_raw: the raw representation is the host-order reading of the object bytes;
